@@ -559,7 +559,9 @@ fn spell_collating(pattern: &str, regex_type: RegexType) -> String {
 /// reads it (collating symbols, the operators of grep and posix-basic): what
 /// is compiled first, to report errors against the pattern as given.
 fn spelled(pattern: &str, regex_type: RegexType) -> String {
-    spell_basic_operators(&spell_collating(pattern, regex_type), regex_type)
+    // (the operators first: they are found by reading the bracket expressions
+    // as they were written)
+    spell_collating(&spell_basic_operators(pattern, regex_type), regex_type)
 }
 
 /// The pattern as it has to be written inside the group it is wrapped in:
